@@ -57,7 +57,7 @@ META = {
                     'the square-root hypothesis of the fit theorems (sqrt x * sqrt x = x for x >= 0) holds in the real numbers; the '
                     'rational run of the proof-side fitAgg uses exact roots and is compared only where every root taken is exact',
                     'approximate_spectral_radius is not modelled: the value the smoother used is recorded from the call, checked '
-                    'against the dense spectral radius of the scaled matrix (1e-3 for n <= 12, 20% inside hierarchies) and then '
+                    'against the dense spectral radius of the scaled matrix (5% for n <= 12 -- defective eigenvalues converge slowly --, 20% inside hierarchies) and then '
                     'used in the polynomial',
                     'for the model comparison of filtered Jacobi and cg/cgnr energy smoothing the row patterns are read from the '
                     'running code (arguments of satisfy_constraints / compute_BtBinv); the independent oracle recomputes the allowed '
@@ -357,11 +357,21 @@ def fit_property_failures(ctx, agg, nc, K1, K2, B, T, R, eps=1e-8):
     G = T.conj().T @ T
     dg = np.real(np.diag(G)).copy()
     off = G - np.diag(np.diag(G))
-    if off.size and np.abs(off).max() > eps:
+    # modified Gram-Schmidt loses orthogonality in proportion to the condition number of the local block
+    kappa = 1.0
+    for j in range(nc):
+        r = [i * K1 + k for i in range(nf) if agg[i] == j for k in range(K1)]
+        if r:
+            sv = np.linalg.svd(B[r], compute_uv=False)
+            sv = sv[sv > 1e-5 * sv.max(initial=0.0)] if sv.size and sv.max() > 0 else sv[:0]
+            if sv.size:
+                kappa = max(kappa, float(sv.max() / sv.min()))
+    otol = max(eps, 100 * (1.2e-7 if eps > 1e-6 else 2.3e-16) * kappa)
+    if off.size and np.abs(off).max() > otol:
         i, j = np.unravel_index(np.abs(off).argmax(), off.shape)
         bad.append(f'columns {i} and {j} of T are not orthogonal: (T^H T)[{i},{j}] = {G[i, j]}')
     for k, d in enumerate(dg):
-        if not (abs(d - 1) <= eps or d == 0):
+        if not (abs(d - 1) <= otol or d == 0):
             bad.append(f'column {k} of T has squared norm {d} (neither 1 nor 0)')
             break
     rows = [i * K1 + k for i in range(nf) if agg[i] >= 0 for k in range(K1)]
@@ -1110,7 +1120,7 @@ def item_smooth(ctx, rng, t):
             return None
         rho = float(tap.calls[0][2])
         rho_true = float(np.abs(np.linalg.eigvals(scaled_dense(M, eff, bs, 1.0, 1.0))).max())
-        if n <= 12 and abs(rho - rho_true) > 1e-3 * rho_true:
+        if n <= 12 and abs(rho - rho_true) > 0.05 * rho_true:
             ctx.violation(f'{weighting}: spectral radius of the scaled matrix is {rho_true} but the smoother used {rho}', case)
     elif tap.calls:
         ctx.violation('local weighting must not scale by a spectral radius', case)
@@ -1537,6 +1547,11 @@ def judge_energy(ctx, case):
         amask = allowed_energy_pattern(Cv, Tb, case['degree'], case['prefilter'])
     allowed = np.kron(amask, np.ones((bs, K2))) != 0
     st = status_from_mask(Bc, amask, K2)
+    if 'ambiguous' in st:
+        # an ill-conditioned local Gram matrix: rounding noise of that row can dominate a (near) zero residual, which
+        # gmres then normalises -- not a well-conditioned instance for a tolerance-based judgement
+        ctx.near_skipped += 1
+        st = ['ambiguous'] * len(st)
     bad = product_failures(P, Tin, Bc, allowed, st, bs, what)
     if bad:
         ctx.violation(bad, case, fkey=gmres_block_key(case['krylov'], case['weighting'], bs, bad))
@@ -1640,6 +1655,10 @@ def judge_rootnode(ctx, case):
         return
     # reproduction of B on every row whose (final) pattern supports the constraints
     st = status_from_mask(Bc, block_any(Pd != 0, bs, bs), bs)
+    st0 = status_from_mask(Bc, amask, bs)
+    if 'ambiguous' in st or 'ambiguous' in st0:
+        ctx.near_skipped += 1      # ill-conditioned local Gram matrix somewhere: see judge_energy
+        return
     E = np.abs(Pd @ Bc - B)
     scale = (1 + np.abs(Pd).max()) * (np.abs(B).max() or 1.0)
     for i in range(nn):
@@ -1838,6 +1857,9 @@ def judge_hierarchy(ctx, case, count=False):
                     amask = allowed_energy_pattern(np.abs(lvl.C.toarray()), Tb, degree, None)
                 allowed = np.kron(amask, np.ones((lbs, K2))) != 0
                 st = status_from_mask(Bcoarse, amask, K2)
+                if 'ambiguous' in st:
+                    ctx.near_skipped += 1
+                    st = ['ambiguous'] * len(st)
                 bad = product_failures(P, T, Bcoarse, allowed, st, lbs, what)
                 if bad:
                     fk = gmres_block_key(opts.get('krylov', 'cg'), opts.get('weighting', 'local'), lbs, bad) if name == 'energy' else None
@@ -1858,6 +1880,9 @@ def judge_hierarchy(ctx, case, count=False):
                 return
             ndl = Bf.shape[1]
             st = status_from_mask(Bcoarse, block_any(Pd != 0, lbs, lbs), lbs)
+            if 'ambiguous' in st:
+                ctx.near_skipped += 1
+                st = ['ambiguous'] * len(st)
             E = np.abs(Pd @ Bcoarse - Bf)
             scale = (1 + np.abs(Pd).max()) * (np.abs(Bf).max() or 1.0)
             for i in range(nf):
@@ -1990,7 +2015,7 @@ def replay_smoother(ctx, case):
     rho = float(tap.calls[0][2]) if tap.calls else 1.0
     rho_true = float(np.abs(np.linalg.eigvals(scaled_dense(M, eff, bs, 1.0, 1.0))).max())
     print('spectral radius used', rho, 'dense value', rho_true)
-    if eff != 'local' and abs(rho - rho_true) > 1e-3 * rho_true:
+    if eff != 'local' and abs(rho - rho_true) > 0.05 * rho_true:
         ctx.violation(f'{w}: spectral radius of the scaled matrix is {rho_true} but the smoother used {rho}', case)
     Ms = scaled_dense(M, eff, bs, omega, rho)
     ref = T.toarray().astype(Ms.dtype)
